@@ -21,6 +21,7 @@ REF_MEASURE = {"SEG": F(2), "TRI": F(1, 2), "QUAD": F(4), "TETRA": F(1, 6), "HEX
 NRIGID = {("elastic", 2): 3, ("elastic", 3): 6, ("thermal", 1): 1, ("thermal", 2): 1, ("thermal", 3): 1}
 PAR_E = {"E": 1.0, "v": 0.3, "planeStress": True, "thickness": 0.7, "rho": 1.3}
 PAR_T = {"k": 2.0, "c": 3.0, "thickness": 0.7, "rho": 1.3}
+SCALES = [1e-9, 1e-6, 1e3]      # nano, micro, kilo: every checked quantity is homogeneous in the length unit
 
 REPLAY = r'''
 import json, sys
@@ -30,8 +31,10 @@ check, expect = %(check)r, %(expect)r
 r = run_case(case)
 if "error" in r:
     print("case raises:", r["error"]); sys.exit(1)
-K, M = r["K"], r["M"]
 bad = False
+if check == "runs":
+    print("the case runs without raising"); sys.exit(0)
+K, M = r["K"], r["M"]
 if check == "kernel":
     print("stiffness: %%d dofs, %%d eigenvalues below 1e-9*max (expected %%d rigid modes); first eigenvalues/max: %%s"
           %% (K["n"], K["n_below"], expect, [x / K["eig_max"] for x in K["first"][:10]]))
@@ -204,6 +207,7 @@ def grid_cases(ctx, factory):
         mass_modes = ["elem", "full"] + (["gauss"] if Ne != nm else [])
         rigi_modes = ["elem", "full"] + (["gauss"] if Ne != nr else [])
         for mm in mass_modes:
+            base = dict(base, scale=(None if mm != "elem" else SCALES[len(out) % 3]))
             km = rng.choice(rigi_modes)
             th = round(rng.uniform(0.4, 1.8), 3)
             if dim >= 2:
@@ -216,11 +220,13 @@ def grid_cases(ctx, factory):
         if dim == 2:
             # the same 2-D mesh as a tilted plate in 3-D (dim 2, inDim 3): the thickness still applies
             th = round(rng.uniform(0.4, 0.8), 3)
-            out.append(dict(base, phys="thermal", params={"thickness": th}, embed=rot(), label="grid-embedded",
-                            coefs={"rho": field("scalar", Ne, nm), "c": field("elem", Ne, nm), "k": field("elem", Ne, nr)}, modes="c:elem,k:elem"))
+            for sc in [None] + SCALES:
+                out.append(dict(base, phys="thermal", params={"thickness": th}, embed=rot(), label="grid-embedded" + ("" if sc is None else ":x%g" % sc), scale=sc,
+                                coefs={"rho": field("scalar", Ne, nm), "c": field("elem", Ne, nm), "k": field("elem", Ne, nr)}, modes="c:elem,k:elem"))
         if dim == 1:
-            out.append(dict(base, phys="thermal", params={"thickness": 1.0}, embed=rot(), label="grid-embedded",
-                            coefs={"rho": field("elem", Ne, nm), "c": field("scalar", Ne, nm), "k": field("elem", Ne, nr)}, modes="rho:elem,k:elem"))
+            for sc in [None] + SCALES:
+                out.append(dict(base, phys="thermal", params={"thickness": 1.0}, embed=rot(), label="grid-embedded" + ("" if sc is None else ":x%g" % sc), scale=sc,
+                                coefs={"rho": field("elem", Ne, nm), "c": field("scalar", Ne, nm), "k": field("elem", Ne, nr)}, modes="rho:elem,k:elem"))
     return out
 
 
@@ -230,6 +236,7 @@ def check_grid(ctx, c, r, factory):
     tag = "%s:%s:%s:%s:%s" % (c["label"], c["phys"], n, c["shape"], c["modes"])
     ctx.note_case(tag)
     X, conn, meas = grid_data(c)
+    meas = meas * float(c.get("scale") or 1.0) ** r["dim"]
     wm = [T_gauss.fr(x) for x in factory[(n, "mass")]["w"]]
     wr = [T_gauss.fr(x) for x in factory[(n, "rigi")]["w"]]
     wm, wr = [float(x) for x in wm], [float(x) for x in wr]
@@ -461,7 +468,8 @@ def run(ctx):
         if p["dim"] >= 2:
             nrm = [1.0, 0.0, 0.0] if p["dim"] == 3 else [0.6, 0.8, 0.0]
             j = T_patch.to_json(p)
-            ops = [["signed_jacobian"], ["mirror", nrm], ["signed_jacobian"], ["measure"]]
+            sc = SCALES[len(cases) % 3]
+            ops = [["signed_jacobian"], ["mirror", nrm], ["scale", sc], ["signed_jacobian"], ["measure"]]
             cases.append(dict(j, kind="patch", phys="elastic", params=PAR_E, label="dist2-mirror", plist=None, ops=ops))
             cases.append(dict(j, kind="patch", phys="thermal", params=PAR_T, label="dist2-mirror", plist=None, ops=ops))
     quick = ctx.tier != "thorough"
@@ -487,8 +495,10 @@ def run(ctx):
                     v = [ctx.rng.gauss(0, 1) for _ in range(d)] + [0.0] * (3 - d)
                     nv = math.sqrt(sum(x * x for x in v))
                     return [x / nv for x in v]
-                cases.append(dict(base, label="gmsh-mirror", ops=[["mirror", unit(dim)], ["evaluate"], ["signed_jacobian"], ["measure"]]))
-                cases.append(dict(base, label="gmsh-rot", ops=[["signed_jacobian"], ["rotate", ctx.rng.uniform(10, 170), [0.0, 0.0, 1.0] if dim == 2 else unit(3)], ["evaluate"]]))
+                # ... and scaled twins: the same mesh converted to another length unit through the coordinate setter
+                s1, s2 = SCALES[len(cases) % 3], SCALES[(len(cases) + 1) % 3]
+                cases.append(dict(base, label="gmsh-mirror", scale=s1, ops=[["mirror", unit(dim)], ["scale", s1], ["evaluate"], ["signed_jacobian"], ["measure"]]))
+                cases.append(dict(base, label="gmsh-rot", scale=s2, ops=[["signed_jacobian"], ["scale", s2], ["rotate", ctx.rng.uniform(10, 170), [0.0, 0.0, 1.0] if dim == 2 else unit(3)], ["evaluate"]]))
     for et in ("SEG2", "SEG3", "SEG4", "SEG5"):
         for bd in (1, 2, 3):
             for timo in (False, True):
@@ -503,6 +513,9 @@ def run(ctx):
                     d = [ctx.rng.uniform(2, 5), ctx.rng.uniform(1, 4) * ctx.rng.choice([-1, 1]), (ctx.rng.uniform(1, 4) * ctx.rng.choice([-1, 1])) if bd == 3 else 0.0]
                     c = {"kind": "beam", "elem": et, "beamDim": bd, "timo": timo, "p1": p1, "p2": [a + b for a, b in zip(p1, d)], "n": 3,
                          "b": 0.3, "h": 0.5, "E": 210.0, "v": 0.3, "rho": 2.0, "label": "beam", "orient": "inclined-" + ya}
+                    if (len(cases) % 2) == 0:
+                        c["scale"] = SCALES[(len(cases) // 2) % 3]
+                        c["orient"] += ":x%g" % c["scale"]
                     if ya == "user":
                         # deliberately NOT perpendicular to the fibre: the setter must re-orthogonalise it
                         c["yAxis"] = [ctx.rng.uniform(-1, 1), ctx.rng.uniform(0.5, 1.5), ctx.rng.uniform(-1, 1)] if bd == 3 else [-d[1] + 0.4 * d[0], d[0] + 0.4 * d[1], 0.0]
@@ -526,6 +539,11 @@ def run(ctx):
         dist[lab] = dist.get(lab, 0) + 1
         if "error" in r:
             ctx.note_case(None)
+            if c["kind"] == "beam" and "symetry axis" in r["error"]:
+                # absolute tolerance on a quantity of dimension length^4 in the library's input validation
+                ctx.violation("beam-section-symmetry-abs-tol", "beam with a doubly symmetric %g x %g rectangular cross-section (length unit x%g) is rejected: %s — `assert np.abs(Iyz) <= 1e-9` in _Beam.section is an ABSOLUTE bound on a second moment (length^4); round-off of Iyz exceeds it for sections of size >~ 100 units (e.g. millimetres)" % (
+                    c["b"] * float(c.get("scale") or 1), c["h"] * float(c.get("scale") or 1), float(c.get("scale") or 1), r["error"]), dict(replay(c, "runs", None), trace=r.get("trace")), True)
+                continue
             ctx.violation("impl-error:%s:%s:%s" % (lab, c.get("phys", ""), n), "%s %s %s raises %s" % (lab, c.get("phys", ""), n, r["error"]), {"case": c, "trace": r.get("trace")}, True)
             continue
         if c["kind"] == "grid":
@@ -554,12 +572,13 @@ def run(ctx):
             ctx.note_case("beam:%s:%d:%s:%s" % (n, c["beamDim"], c["timo"], c["orient"]))
             nr = {1: 1, 2: 3, 3: 6}[c["beamDim"]]
             key = "%s:dim%d:%s:%s" % (n, c["beamDim"], "timoshenko" if c["timo"] else "euler-bernoulli", c["orient"])
-            expM = c["rho"] * c["b"] * c["h"] * r["L"]
+            scb = float(c.get("scale") or 1.0)
+            expM = c["rho"] * (c["b"] * scb) * (c["h"] * scb) * r["L"]
             if c.get("rho_elem") is not None:
                 # INDEPENDENT totals of a per-element density: sum_e rho_e A L_e and the first moment
                 rho_e = [c["rho_elem"][i % len(c["rho_elem"])] for i in range(r["Ne"])]
-                expM = sum(re * c["b"] * c["h"] * le for re, le in zip(rho_e, r["L_e"]))
-                expMo = sum(re * c["b"] * c["h"] * (x2 * x2 - x1 * x1) / 2 for re, (x1, x2) in zip(rho_e, r["x_ends_e"]))
+                expM = sum(re * c["b"] * c["h"] * scb * scb * le for re, le in zip(rho_e, r["L_e"]))
+                expMo = sum(re * c["b"] * c["h"] * scb * scb * (x2 * x2 - x1 * x1) / 2 for re, (x1, x2) in zip(rho_e, r["x_ends_e"]))
                 okmo = abs(r["M_moment"] - expMo) <= 1e-9 * abs(expMo)
                 ctx.obligation("beam: first moment of the mass x'Mt = sum_e rho_e A int x dx (%s)" % key, okmo, "%r vs %r" % (r["M_moment"], expMo))
                 if not okmo:
@@ -590,10 +609,10 @@ def run(ctx):
         ctx.note_case("%s:%s:%s" % (lab, phys, n))
         nr = NRIGID[(phys, dim)]
         tag = "%s:%s:%s" % (phys, lab, n)
-        oks = K["sym_defect"] <= 1e-12 * K["absmax"] and K["eig_min"] >= -1e-10 * K["eig_max"] and r["rigid_residual"] <= 1e-9 * K["absmax"]
+        oks = K["sym_defect"] <= 1e-12 * K["absmax"] and K["eig_min"] >= -1e-10 * K["eig_max"] and r["rigid_residual"] <= 1e-9
         ctx.obligation("K symmetric PSD, rigid modes in kernel (%s)" % tag, oks)
         if not oks:
-            ctx.violation("K-sympsd:" + tag, "%s: K not symmetric PSD / rigid modes not in the kernel (sym %.2e, min eig %.2e, K*rigid %.2e)" % (tag, K["sym_defect"] / K["absmax"], K["eig_min"] / K["eig_max"], r["rigid_residual"] / K["absmax"]),
+            ctx.violation("K-sympsd:" + tag, "%s: K not symmetric PSD / rigid modes not in the kernel (sym %.2e, min eig %.2e, K*rigid %.2e)" % (tag, K["sym_defect"] / K["absmax"], K["eig_min"] / K["eig_max"], r["rigid_residual"]),
                           replay(c, "sym_psd", None), True)
         # kernel dimension: against the rigid count, and against the Coq computation on the same patch
         kd = kernel_dim.get((phys, c.get("plist"), n)) if c["kind"] == "patch" else None
@@ -611,7 +630,7 @@ def run(ctx):
         if lab == "ref2":
             meas = float(2 * REF_MEASURE[T_patch.family(n)])
         elif lab.startswith("gmsh"):
-            meas = float(c["L"] * (c["H"] if dim >= 2 else 1.0) * (c["D"] if dim == 3 else 1.0) * abs(np.linalg.det(np.array(c["A"]))))
+            meas = float(c.get("scale", 1.0)) ** dim * float(c["L"] * (c["H"] if dim >= 2 else 1.0) * (c["D"] if dim == 3 else 1.0) * abs(np.linalg.det(np.array(c["A"]))))
         else:
             # distorted/curved patch: theorem C02_mass_total predicts rho * sum_p w_p|J_p| with the mass
             # rule (the exact measure of a curved element is not a polynomial integral of the rule)
